@@ -358,9 +358,7 @@ func run(src []byte, o *vh.Out, withFormat bool) {
 				o.Count("moves_something")
 				nontrivial = true
 			}
-			if !bytes.Equal(out, want) && bytes.Equal([]byte(sortedBytes(out)), []byte(sortedBytes(src))) {
-				o.Oracle("chunk-permutation", caseLine, impl)
-			}
+			strictFails := !bytes.Equal(out, want) && sortedBytes(out) == sortedBytes(src)
 			// semantic classes, where the parser can tell
 			allKnown := true
 			truth := make([]byte, len(stmts))
@@ -415,6 +413,11 @@ func run(src []byte, o *vh.Out, withFormat bool) {
 						}
 					}
 				}
+				if bytes.Equal(out, twant) {
+					// the classes the implementation used are the parser's: fine even where the
+					// re-stated token rule says otherwise
+					strictFails = false
+				}
 				if !bytes.Equal(out, twant) {
 					// name the first statement whose class differs from the parser's
 					key := "misclassified:other"
@@ -426,6 +429,9 @@ func run(src []byte, o *vh.Out, withFormat bool) {
 					}
 					o.Oracle(key, caseLine, impl)
 				}
+			}
+			if strictFails {
+				o.Oracle("chunk-permutation", caseLine, impl)
 			}
 		}
 	}
@@ -725,9 +731,9 @@ func main() {
 		}
 	}()
 	if f.Replay != "" {
-		fs := strings.Split(f.Replay, "\t")
+		fs := strings.Fields(f.Replay) // op, hex source, … (tabs or blanks)
 		if len(fs) < 2 {
-			fs = strings.Fields(f.Replay)
+			fs = append(fs, "-")
 		}
 		src, _ := vh.UnHex(fs[1])
 		run(src, o, true)
